@@ -96,6 +96,7 @@ class Engine:
         self.model = None       # a model of base+path (or None if not known)
         self.stats = Stats()
         self.timeout_ms = 60000
+        self.retry_timeout_ms = None
         self.logic = None       # None -> z3 default strategy on a fresh solver
         self.fresh = 0
         self.active = False
@@ -171,7 +172,7 @@ class Engine:
         self.stats.unknown += 1
         # one retry with the generic strategy and a longer budget before giving up
         s2 = z3.Solver()
-        s2.set("timeout", self.timeout_ms * 2)
+        s2.set("timeout", self.retry_timeout_ms or self.timeout_ms)
         for b in list(self.base) + list(extra_base) + list(self.path) + list(extra):
             s2.add(b)
         t = time.time()
@@ -479,7 +480,16 @@ _ival_cache = {}
 
 
 def declare_bounds(var, lo, hi):
-    VAR_BOUNDS[str(var)] = (lo, hi)
+    name = str(var)
+    old = VAR_BOUNDS.get(name)
+    if old is not None and old != (lo, hi):
+        # same-named constant re-declared with other bounds (next case in the same worker): every cached interval of a
+        # compound term may be stale
+        _ival_cache.clear()
+        _itruth_cache.clear()
+        for k, v in list(VAR_BOUNDS.items()):
+            pass
+    VAR_BOUNDS[name] = (lo, hi)
     _ival_cache[var.get_id()] = (var, (lo, hi))
 
 
